@@ -678,7 +678,7 @@ def run_check(mod, prop, tier, verif_seed, nworkers=None, budget_s=None, n_runs=
     if st_n and exit_code == EXIT_OK:
         idxs = [i for i in range(st_n) if i in agg.digests]
         again = digests_only(mod, prop, verif_seed, tier, idxs)
-        hs = getattr(mod, 'SELFTEST_HASHSEED', None)
+        hs = getattr(mod, 'SELFTEST_HASHSEED', 7919)   # the fresh interpreter also runs under another string-hash seed
         try:
             fresh = fresh_interpreter_digests(prop, verif_seed, tier, idxs, 1, hashseed=hs)
         except (HarnessError, subprocess.TimeoutExpired) as e:
